@@ -8,7 +8,7 @@ import c11_monitors
 
 TITLE = 'Routines, conditions and flow variables obey their state machine'
 TRANSLATED = []
-MODEL_TARGETS = ['model/Cond.vo', 'model/Routine.vo']
+MODEL_TARGETS = ['model/Cond.vo', 'model/Routine.vo', 'model/RtWake.vo']
 ALLOWED_AXIOMS = []
 TRUSTED = [
     'hand-written model coq/model/Routine.v + coq/model/Cond.v of sc3/base/stream.py (Routine.next/reset/pause/resume/stop/play, '
@@ -17,6 +17,9 @@ TRUSTED = [
     'CPython generators by specification: a generator is a position in a finite script; send() into an executing generator '
     'raises ValueError; StopIteration subclasses escaping a generator become RuntimeError (PEP 479)',
     'the script-to-generator compiler and the observation encoder in harness/impl/c11_run.py',
+    'real-time wake-up loops (SystemClock._run, TempoClock._run, Scheduler._wakeup): model/RtWake.v is a hand transcription of the '
+    'try/except/finally around task.__awake__; tie = ast check of the clearing clause + behavioural monitors on the real clock threads '
+    '(harness/impl/c11_rt.py); OS thread scheduling and time.time() are not modelled',
 ]
 ASSUMES = [
     'routine bodies are finite scripts over the actions of coq/model/Routine.v:act (yield, return, raise, YieldAndReset, '
@@ -226,8 +229,85 @@ def first_diff(ctx, case, obs, cfg='patched'):
     return (None if len(rows) == len(obs) else min(len(rows), len(obs))), rows
 
 
+# --------------------------------------------------------------------------- real-time part
+RT_ENDINGS = ['exhaust', 'return', 'raise', 'raise_first', 'yreset', 'always', 'function', 'nested_ends', 'nested_raises']
+RT_LOOPS = [('SystemClock', '_run'), ('Scheduler', '_wakeup'), ('TempoClock', '_run')]
+SIG_AWAKE = 'C11:awake_flag_not_cleared'
+
+
+def awake_clause(repo):
+    """Where do the three real-time wake-up loops clear main._in_awake_call?  (ast of sc3/base/clock.py)
+    -> {loop: 'finally' | 'else' | 'body' | 'handler' | 'missing'}; the model (RtWake.v) says Finally."""
+    import ast
+    tree = ast.parse(open(os.path.join(repo, 'sc3', 'base', 'clock.py')).read())
+
+    def assigns(nodes, value):
+        for n in nodes:
+            for m in ast.walk(n):
+                if isinstance(m, ast.Assign) and any(isinstance(t, ast.Attribute) and t.attr == '_in_awake_call' for t in m.targets) \
+                        and isinstance(m.value, ast.Constant) and m.value.value is value:
+                    return True
+        return False
+    out = {}
+    for cls, fn_name in RT_LOOPS:
+        where = 'missing'
+        for c in ast.walk(tree):
+            if isinstance(c, ast.ClassDef) and c.name == cls:
+                for f in ast.walk(c):
+                    if isinstance(f, ast.FunctionDef) and f.name == fn_name:
+                        for t in ast.walk(f):
+                            if isinstance(t, ast.Try) and assigns(t.body, True):
+                                where = ('finally' if assigns(t.finalbody, False) else 'else' if assigns(t.orelse, False)
+                                         else 'handler' if assigns(t.handlers, False) else 'body' if assigns(t.body, False) else 'missing')
+        out['%s.%s' % (cls, fn_name)] = where
+    return out
+
+
+def run_rt(ctx, c=None):
+    """routines ending in every way on the real clock threads (own process, own port); -> Failures"""
+    port = 58500 + (os.getpid() % 30) * 12
+    res = ctx.impl('c11_rt', {'endings': RT_ENDINGS, 'sleep_check': ['exhaust', 'raise']}, mode='rt', timeout=120,
+                   extra_env={'SC3_LIB_PORT': str(port)})['scenarios']
+    fails = []
+    seen = set()
+    for sc in res:
+        if c is not None:
+            c.count('rt:%s:%s' % (sc['clock'], 'skipped' if sc.get('skipped') else 'finished'))
+            if not sc.get('skipped'):
+                c.nontriv(('rt', sc['clock'], sc['ending']))
+        for v in sc['violations']:
+            key = (sc['clock'], v.split(':')[0][:40])
+            if key in seen:
+                continue
+            seen.add(key)
+            fails.append(Failure('search', 'real-time monitor: routine played on %s ending by %s: %s' % (sc['clock'], sc['ending'], v),
+                                 signature=SIG_AWAKE, theorem='awake_flag_cleared_on_every_exit', found_input=True,
+                                 replay={'scenario': {k: sc[k] for k in sc if k != 'violations'}, 'violations': sc['violations'],
+                                         'how': 'harness/impl/c11_rt.py: sc3.init("rt"); Routine(body ending by <ending>).play(<clock>); '
+                                                'wait until it has finished; then observe main._in_awake_call, main.current_tt, '
+                                                'main.main_tt._seconds before/after time.sleep(0.3), and the start time of a routine played afterwards'}))
+    return res, fails
+
+
 def correspond(ctx):
     c = Corr()
+    # real-time wake-up loops: the clause the model assumes, read from the source; then the real threads
+    clauses = awake_clause(fw.REPO)
+    rt_res, rt_fails = run_rt(ctx, c)
+    clock_of = {'SystemClock._run': 'SystemClock', 'Scheduler._wakeup': 'AppClock', 'TempoClock._run': 'TempoClock'}
+    for loop, where in clauses.items():
+        c.count('rt-loop:%s:%s' % (loop, where))
+        if where != 'finally':
+            mine = [f for f in rt_fails if f.replay['scenario']['clock'].startswith(clock_of[loop])]
+            for f in mine:      # the concrete scenario is the replay; say what the source looks like
+                f.what += ' [source: %s clears main._in_awake_call in its %s clause, model/RtWake.v assumes finally]' % (loop, where)
+                f.replay['clause_in_source'] = {loop: where}
+            if not mine:
+                c.failures.append(Failure('correspondence', 'model/RtWake.v assumes that %s clears main._in_awake_call in a finally '
+                                          'clause; the source has it in: %s' % (loop, where), replay={'loop': loop, 'clause': where},
+                                          theorem='awake_flag_cleared_on_every_exit'))
+    c.failures.extend(rt_fails)
+    ctx.c11_rt_done = True
     cases = gen_cases(ctx, ctx.n(500, 8000))
     res = run_impl(ctx, cases)
     keep = [(k, r) for k, r in zip(cases, res) if usable(r)]
@@ -243,14 +323,17 @@ def correspond(ctx):
             c.nontriv(strip(k))
     items = [item(k, r['obs'], 'patched') for k, r in keep]
     bad, errs = fw.check_shards(ctx, 'hist', HEADER, items, BODY, shard=max(40, len(items) // 16 + 1))
-    c.evaluations = len(keep)
+    c.evaluations = len(keep) + len(rt_res)
     c.rule = ('generated script programs (1-4 routines, 0-3 conditions/flow variables, bodies of 0-6 actions, histories of 1-18 '
               'operations applied from outside incl. scheduler ticks; three streams: plain, condition/flow-variable programs played '
               'on the NRT clock, and re-entrant/self-targeting malformed programs) compiled into real generator functions and '
               'Routine/Condition/FlowVar objects; after EVERY operation the outcome, every routine\'s state/_iterator/_last_value/'
               '_terminal_value, main.current_tt, main logical time, the scheduler queue and every waiting list, and at the end the '
               'log written by the bodies, are compared exactly with coq/model/Routine.v (patched configuration) under vm_compute. '
-              'non-trivial = some routine ran to a yield (Suspended) or a wake-up was queued')
+              'non-trivial = some routine ran to a yield (Suspended) or a wake-up was queued. Real-time part (not a model comparison: '
+              'monitors only): routines ending by exhaustion / return / raise / YieldAndReset / AlwaysYield / nested endings, played on the '
+              'real SystemClock, AppClock and two TempoClock threads; afterwards current_tt, _in_awake_call, main logical time over a 0.3 s '
+              'sleep (>= 0.2 s) and the start time of a routine played next are checked')
     c.samples = [{'case': strip(k), 'impl_first_obs': r['obs'][0]} for k, r in keep[:4]]
     for e in errs:
         c.failures.append(Failure('correspondence', 'coq evaluation of C11 cases failed: ' + e))
